@@ -82,6 +82,17 @@ def render(d):
         while ents[i - 1]['base']:
             i = ents[i - 1]['base']
         return i
+    def ref(i, name):
+        """how the class body of entity i names an attribute: inherited ones through the class that declares them"""
+        j = i
+        while True:
+            e = ents[j - 1]
+            own = any(a['name'] == name for a in e['attrs']) or any(
+                me['ent'] == j and me['name'] == name for r in rels for me in ((r['a'],) if r['sym'] else (r['a'], r['b'])))
+            if own or not e['base']:
+                break
+            j = e['base']
+        return nm(name) if j == i else '%s.%s' % (nm(ents[j - 1]['name']), nm(name))
     lines = []
     for i, e in enumerate(ents, 1):
         base = nm(ents[e['base'] - 1]['name']) if e['base'] else 'db.Entity'
@@ -113,11 +124,11 @@ def render(d):
                     opts.append('table=%r' % nm(me['table']))
                 body.append('%s = %s(%s)' % (nm(me['name']), me['kind'], ', '.join(opts)))
         if e['pk']:
-            body.append('PrimaryKey(%s)' % ', '.join(nm(x) for x in e['pk']))
+            body.append('PrimaryKey(%s)' % ', '.join(ref(i, x) for x in e['pk']))
         for k in e['ckeys']:
-            body.append('composite_key(%s)' % ', '.join(nm(x) for x in k))
+            body.append('composite_key(%s)' % ', '.join(ref(i, x) for x in k))
         for k in e['cidx']:
-            body.append('composite_index(%s)' % ', '.join(nm(x) for x in k))
+            body.append('composite_index(%s)' % ', '.join(ref(i, x) for x in k))
         if not body:
             body.append('pass')
         lines += ['    ' + b for b in body]
@@ -303,8 +314,8 @@ def spec_cfg(c):
     return {'dialect': c['dialect'], 'maxlen': c['maxlen'], 'full': c['full'], 'exec': c['real']}
 
 
-FAMILY_GROUPS = [['scalar', 'composite', 'relation', 'relation-in-key', 'inheritance', 'inheritance-rel'],
-                 ['m2m', 'm2m-self', 'm2m-names', 'names-case', 'names-long-m2m'],
+FAMILY_GROUPS = [['scalar', 'composite', 'relation', 'relation-in-key', 'inheritance', 'inheritance-rel', 'inheritance-key'],
+                 ['m2m', 'm2m-self', 'm2m-names', 'names-case', 'names-long-m2m', 'shared-table'],
                  ['names-long']]
 
 
